@@ -27,6 +27,7 @@ import (
 	"github.com/rulego/streamsql/expr"
 	"github.com/rulego/streamsql/functions"
 	"github.com/rulego/streamsql/types"
+	"github.com/rulego/streamsql/utils/verifhook"
 	"github.com/rulego/streamsql/window"
 )
 
@@ -58,6 +59,7 @@ func (dp *DataProcessor) Process() {
 		dp.stream.dataChanMux.RLock()
 		currentDataChan := dp.stream.dataChan
 		dp.stream.dataChanMux.RUnlock()
+		verifhook.Point("proc.chan_read")
 
 		// Check if dataChan is nil (stream has been stopped)
 		if currentDataChan == nil {
